@@ -149,3 +149,29 @@ func (v Val) withNote(e *Engine, n string) Val {
 	e.note("approx", n)
 	return v
 }
+
+// ---------- staking keeper (ghost: total bonded tokens) and sdk.Tx ----------
+
+func init() {
+	invokeByMethod["TotalBondedTokens"] = func(c *callCtx) (Val, bool) {
+		if !strings.HasSuffix(namedPath(c.common.Value.Type()), ".StakingKeeper") {
+			return Val{}, false
+		}
+		e := c.e()
+		b := e.heap(c.st, "G_staking_bonded", "Int")
+		er := e.vc.fresh("tbterr", "Iface")
+		return c.tuple(b, er), true
+	}
+	invokeByMethod["GetMsgs"] = func(c *callCtx) (Val, bool) {
+		e := c.e()
+		e.vc.declFun("tx_msgs", []string{"Iface"}, "Slice")
+		r := e.vc.define("msgs", "Slice", app("tx_msgs", c.args[0].S))
+		e.assumeIn(c.st, and(e.typeInv(r, c.rt), e.allocInv(c.st, r, c.rt)))
+		return Val{S: r, T: c.rt}, true
+	}
+}
+
+// methodMods: heaps modified by interface methods handled in invokeByMethod (empty = read-only).
+var methodMods = map[string][]string{
+	"TotalBondedTokens": {}, "GetMsgs": {}, "GetModuleAddress": {}, "GetModuleAccount": {}, "GetAddress": {}, "Error": {},
+}
